@@ -33,14 +33,14 @@ func init() {
 			if tier == "thorough" {
 				return 1200
 			}
-			return 96
+			return 120
 		},
 		EvalCounter: "ops_judged",
 		CaseTimeout: 120 * time.Second,
 		Run:         runC07,
 		Floors: func(tier string) map[string]int {
-			return map[string]int{"ops_judged": 1500, "refused_readonly": 300, "demotions_mid_tx": 10, "demotion_then_commit_refused": 8, "import_refused": 10,
-				"state_connected": 5, "state_disconnected": 5, "state_never-connected": 5, "op_dbwrite": 50, "op_journal-create": 50, "op_wal-write": 30, "op_db-unlink": 30, "op_journal-unlink": 10}
+			return map[string]int{"ops_judged": 1500, "refused_readonly": 300, "demotions_mid_tx": 10, "demotion_then_commit_refused": 8, "import_waiting_at_demotion": 8, "import_refused": 10,
+				"state_connected": 5, "state_disconnected": 5, "state_never-connected": 5, "state_former-halt-holder": 5, "op_dbwrite": 50, "op_journal-create": 50, "op_wal-write": 30, "op_db-unlink": 30, "op_journal-unlink": 10}
 		},
 	})
 }
@@ -70,6 +70,10 @@ func isReadOnlyErr(err error) bool {
 }
 
 func runC07(c *core.Case) {
+	if c.Index%10 == 9 {
+		c07C(c)
+		return
+	}
 	if c.Index%3 == 2 {
 		c07B(c)
 		return
@@ -79,7 +83,7 @@ func runC07(c *core.Case) {
 
 func c07A(c *core.Case) {
 	wal := (c.Index/3)%2 == 1
-	state := []string{"connected", "disconnected", "never-connected"}[(c.Index/6)%3]
+	state := []string{"connected", "disconnected", "never-connected", "former-halt-holder"}[(c.Index/6)%4]
 	c.Count("state_"+state, 1)
 	ps := uint32(1024)
 	cl, err := cluster.New(c.Dir, []cluster.NodeOpts{{Candidate: true}, {}})
@@ -130,6 +134,40 @@ func c07A(c *core.Case) {
 			c.Inconclusive("replica did not converge")
 			return
 		}
+		if state == "former-halt-holder" {
+			// the replica held the database's halt lock, wrote through it and gave
+			// it back (or let it lapse): it is an ordinary replica again
+			lf, err := R.Node.Open("db-lock")
+			if err != nil {
+				c.Violate("C07/setup", "open lock file: "+err.Error(), nil)
+				return
+			}
+			lctx, cancel := context.WithTimeout(context.Background(), 10*time.Second)
+			err = lf.LockWait(lctx, 31, 72, 72, true)
+			cancel()
+			if err != nil {
+				c.Violate("C07/setup", "halt acquire: "+err.Error(), nil)
+				return
+			}
+			if img, ok := led.get("db", mon.PosOf(R.Node, "db")); ok {
+				if rw, err := newWriter(R.Node, "db", ps, wal, "delete", img, c.SubRng("rw"), led, 32); err == nil {
+					rw.d.BusyRetries = 500
+					if rw.ensure(3) == nil {
+						_, _ = rw.txn(2)
+					}
+					rw.close()
+				}
+			}
+			if c.Rng.IntN(2) == 0 {
+				_ = lf.Unlock(31, 72, 72)
+			} else {
+				_ = lf.Flush(31)
+			}
+			_ = lf.Release()
+			if R.Store.DB("db").HasRemoteHaltLock() {
+				c.Violate("C07/still-halt-holder-after-release", "the replica still holds the remote halt lock after releasing it", nil)
+			}
+		}
 		if state == "disconnected" {
 			cl.Nodes[0].Proxy.SetMode("refuse")
 			cl.Nodes[0].Proxy.Cut()
@@ -151,10 +189,10 @@ func c07A(c *core.Case) {
 		lockStates = append(lockStates, "wal-read", "wal-write", "wal-ckpt")
 	}
 	type op struct {
-		name       string
-		mustFail   bool // the operation would change database / position / log
-		wantRO     bool // must fail with the read-only permission error
-		run        func() error
+		name     string
+		mustFail bool // the operation would change database / position / log
+		wantRO   bool // must fail with the read-only permission error
+		run      func() error
 	}
 	openOr := func(name string) (*drv.File, error) { return n.OpenOrCreate(name) }
 	jhdr := ref.JournalHeader(0, 7, 4, 512, ps)
@@ -302,7 +340,7 @@ func c07A(c *core.Case) {
 			}
 			if before != after {
 				// a stream apply may land between the two snapshots on a connected replica
-				if state == "connected" && after.pos != before.pos {
+				if (state == "connected" || state == "former-halt-holder") && after.pos != before.pos {
 					if _, ok := led.get("db", after.pos); ok {
 						continue
 					}
@@ -314,7 +352,7 @@ func c07A(c *core.Case) {
 				c.Violate("C07/write-accepted/"+o.name, fmt.Sprintf("%s on a %s replica (lock state %s) returned success", o.name, state, ls), detail)
 				return
 			}
-			if o.wantRO && !isReadOnlyErr(err) {
+			if o.wantRO && drv.Errno(err) != syscall.EACCES {
 				// (without the database nothing can be written: ENOENT is a refusal too)
 				if !(state == "never-connected" && drv.Errno(err) == syscall.ENOENT) {
 					c.Violate("C07/not-readonly-error/"+o.name, fmt.Sprintf("%s on a %s replica (lock state %s) was refused with %v instead of the read-only permission error", o.name, state, ls, err), detail)
@@ -471,4 +509,133 @@ func unwrapAll(err error) error {
 		}
 		err = u
 	}
+}
+
+// c07C: a POST /import is waiting for the database's write lock (held by an
+// in-flight local transaction) while the primary loses its lease. Once the lock
+// is free the import must fail; nothing may be published or changed by it.
+func c07C(c *core.Case) {
+	wal := (c.Index/10)%2 == 1
+	how := []string{"expire", "demote", "renew-errors"}[(c.Index/20)%3]
+	cl, err := cluster.New(c.Dir, []cluster.NodeOpts{{Candidate: true}})
+	if err != nil {
+		c.Inconclusive(err.Error())
+		return
+	}
+	defer cl.Close()
+	if err := cl.Start(0); err != nil || cl.WaitPrimary(0, 10*time.Second) == nil {
+		c.Inconclusive("primary start")
+		return
+	}
+	P := cl.Nodes[0]
+	led := newLedger()
+	ps := uint32(1024)
+	w, err := newWriter(P.Node, "db", ps, wal, "delete", nil, c.SubRng("w"), led, 1)
+	if err != nil {
+		c.Violate("C07/setup", err.Error(), nil)
+		return
+	}
+	defer w.close()
+	if err := w.ensure(uint32(5 + c.Rng.IntN(5))); err != nil {
+		c.Violate("C07/setup", err.Error(), nil)
+		return
+	}
+	_, _ = w.txn(2)
+	var blocked bool
+	cl.Svc.Inject = func(node, op string) error {
+		if blocked && (op == "acquire" || (how == "renew-errors" && op == "renew")) {
+			return errors.New("scripted: unavailable")
+		}
+		return nil
+	}
+	before := c07Snapshot(P.Node, "db")
+	other := ref.NewImage(ps)
+	other.Set(1, ref.MakePage1(ps, 3, false, 0, nil))
+	pg := make([]byte, ps)
+	for i := range pg {
+		pg[i] = byte(c.Rng.IntN(256))
+	}
+	other.Set(2, pg)
+	other.Set(3, pg)
+	other.PageN = 3
+	type impRes struct {
+		status int
+		err    error
+	}
+	resCh := make(chan impRes, 1)
+	holdStep := "db write"
+	if wal {
+		holdStep = "wal frame 0"
+	}
+	fired := false
+	w.d.Hook = func(step string) error {
+		if fired || !strings.HasPrefix(step, holdStep) {
+			return nil
+		}
+		fired = true
+		go func() {
+			resp, err := http.Post(P.URL()+"/import?name=db", "application/octet-stream", bytes.NewReader(other.Bytes()))
+			if err != nil {
+				resCh <- impRes{0, err}
+				return
+			}
+			defer resp.Body.Close()
+			_, _ = io.Copy(io.Discard, resp.Body)
+			resCh <- impRes{resp.StatusCode, nil}
+		}()
+		// let the import reach its wait for the write lock
+		time.Sleep(time.Duration(30+c.Rng.IntN(120)) * time.Millisecond)
+		select {
+		case r := <-resCh:
+			resCh <- r
+			return nil // the import did not wait: judged below
+		default:
+		}
+		blocked = true
+		switch how {
+		case "expire":
+			cl.Svc.Expire()
+		case "demote":
+			P.Store.Demote()
+		}
+		deadline := time.Now().Add(15 * time.Second)
+		for P.Store.IsPrimary() && time.Now().Before(deadline) {
+			time.Sleep(2 * time.Millisecond)
+		}
+		return nil
+	}
+	_, txErr := w.txn(2)
+	w.d.Hook = nil
+	w.close()
+	if !fired {
+		c.Inconclusive("transaction never reached " + holdStep)
+		return
+	}
+	if P.Store.IsPrimary() {
+		c.Inconclusive("node did not lose primary status")
+		return
+	}
+	var r impRes
+	select {
+	case r = <-resCh:
+	case <-time.After(30 * time.Second):
+		c.Inconclusive("import did not return within 30s")
+		return
+	}
+	c.Count("ops_judged", 1)
+	c.Count("import_waiting_at_demotion", 1)
+	after := c07Snapshot(P.Node, "db")
+	detail := map[string]any{"wal": wal, "how": how, "tx_error": fmt.Sprint(txErr), "import_status": r.status, "import_err": fmt.Sprint(r.err), "before": fmt.Sprint(before), "after": fmt.Sprint(after)}
+	if r.err == nil && r.status == 200 {
+		c.Violate("C07/import-succeeded-after-authority-loss", fmt.Sprintf("POST /import that was waiting for the write lock when the node lost its lease (%s) returned 200", how), detail)
+		return
+	}
+	if after.pos != before.pos || after.ltx != before.ltx || after.img != before.img {
+		if _, ok := led.get("db", after.pos); !ok || after.pos == before.pos {
+			c.Violate("C07/import-published-after-authority-loss", fmt.Sprintf("POST /import that was waiting for the write lock when the node lost its lease (%s) changed the database: %v -> %v (import: status %d, err %v)", how, before, after, r.status, r.err), detail)
+			return
+		}
+	}
+	c.Count("import_refused_after_loss", 1)
+	c.Distinct(fmt.Sprintf("C/wal%v/%s/status%d", wal, how, r.status))
 }
